@@ -14,9 +14,9 @@ if go test -vet=off -count=1 ./... >/tmp/suite.$$ 2>&1; then SUITE=pass; else SU
 # demo: a nested module whose replace points at the agent's worktree -> point it at ours
 rm -rf $WT/SEEDED && cp -r $SRC/SEEDED $WT/SEEDED
 sed -i "s#=> $SRC#=> $WT#" $WT/SEEDED/demo/go.mod
-(cd $WT/SEEDED/demo && timeout 300 go run . >/tmp/demo_with.$$ 2>&1); WITH=$?
+(cd $WT/SEEDED/demo && timeout 300 ${DEMO_RUN:-go run .} >/tmp/demo_with.$$ 2>&1); WITH=$?
 git apply -R $SRC/SEEDED/patch.diff
-(cd $WT/SEEDED/demo && timeout 300 go run . >/tmp/demo_without.$$ 2>&1); WITHOUT=$?
+(cd $WT/SEEDED/demo && timeout 300 ${DEMO_RUN:-go run .} >/tmp/demo_without.$$ 2>&1); WITHOUT=$?
 echo "RESULT $ID suite_with_change=$SUITE demo_with_change_exit=$WITH demo_without_exit=$WITHOUT"
 if [ "$SUITE" = pass ] && [ $WITH -ne 0 ] && [ $WITHOUT -eq 0 ]; then
   mkdir -p /verif/seeded/$ID && cp $SRC/SEEDED/patch.diff $SRC/SEEDED/meta.json /verif/seeded/$ID/ && rm -rf /verif/seeded/$ID/demo && cp -r $SRC/SEEDED/demo /verif/seeded/$ID/demo
